@@ -215,7 +215,7 @@ fn main() {
                 t.reset(sys.reset_event(&funds));
                 for _ in 0..len {
                     time_passes(&sys.e, &mut r, 700);
-                    let (a, sbal, _sup) = sys.raw();
+                    let (a, sbal, sup) = sys.raw();
                     let oi = r.gen_range(0..3usize);
                     let own = users[oi];
                     let oper = if r.gen_bool(0.8) { own } else { *pick(&mut r, &users) };
@@ -227,6 +227,14 @@ fn main() {
                         "mint" => amount(&mut r, a[oi].saturating_mul(p10)),
                         "withdraw" => amount(&mut r, sbal[oi] / p10 + 1),
                         _ => amount(&mut r, sbal[oi]),
+                    };
+                    // one call in five: the amount whose product with the conversion's multiplier sits right at the top of
+                    // i128 (the last amounts the native multiplication can take, the first ones that need the wide path)
+                    let x = if r.gen_bool(0.2) && matches!(kind, "deposit" | "withdraw" | "mint" | "redeem") {
+                        let mult = match kind { "deposit" | "withdraw" => sup.saturating_add(p10), _ => a.last().unwrap().saturating_add(1) };
+                        (i128::MAX / mult.max(1)).saturating_add(*pick(&mut r, &[-2i128, -1, 0, 0, 0, 1])).max(0)
+                    } else {
+                        x
                     };
                     let signer = match kind { "donate" | "sapprove" | "aapprove" => own, _ => oper };
                     let auth: Vec<String> = if r.gen_bool(0.92) { vec![signer.to_string()] } else { vec![] };
